@@ -1,7 +1,7 @@
 (* C08, relabelling clause, part 2: the layout.  The internal index of a used physical label is its rank in ascending
    order among the used labels (simulator._process_layout sorts the used labels and run() looks a label up with
-   list.index; C14's model process_layout / index_of is tied to that code by correspondence; rank_is_index_of_sorted below
-   proves that the rank is that model's index).  An injective relabelling pi of the labels induces a permutation of the
+   list.index; C14's model process_layout / index_of is tied to that code by correspondence; process_layout_rank in
+   RelabelLayout.v proves that the rank is that model's index).  An injective relabelling pi of the labels induces a permutation of the
    internal indices: internal index rank L q  |->  rank (map pi L) (pi q). *)
 From Coq Require Import List Bool Arith Lia.
 Require Import QG.Base.State QG.Base.Perm.
